@@ -436,7 +436,7 @@ class Shaper(object):
     @staticmethod
     def _check_input_format(input_format):
         if input_format not in [NT, TSV_SPO, N3, TURTLE, RDF_XML, JSON_LD, TURTLE_ITER]:
-            raise ValueError("Currently unsupported input format: " + input_format)
+            raise ValueError("Currently unsupported input format: " + str(input_format))
 
     @staticmethod
     def _check_compression_mode(compression_mode, url_endpoint, url_graph_input, list_of_url_input):
@@ -468,7 +468,7 @@ class Shaper(object):
     @staticmethod
     def _check_output_format(output_format):
         if output_format not in [SHEXC, SHACL_TURTLE]:
-            raise ValueError("Currently unsupported output format: " + output_format)
+            raise ValueError("Currently unsupported output format: " + str(output_format))
 
     @staticmethod
     def _check_or_config(or_disabled, enable_redundant):
